@@ -127,7 +127,17 @@ func skeleton(tpl string) *regexp.Regexp {
 	return regexp.MustCompile(b.String())
 }
 
+var scriptFilesCache []*scriptFile
+
 func scriptFiles() []*scriptFile {
+	if scriptFilesCache != nil {
+		return scriptFilesCache
+	}
+	scriptFilesCache = buildScriptFiles()
+	return scriptFilesCache
+}
+
+func buildScriptFiles() []*scriptFile {
 	return []*scriptFile{
 		splitScripts("log", false, sql.LogScript),
 		splitScripts("log_dist", true, sql.LogDistScript),
@@ -158,17 +168,22 @@ func newTracker() *scriptTracker {
 	return &scriptTracker{files: scriptFiles(), prefix: map[string]int{}, fileOfK: map[int64]string{}}
 }
 
-func (tr *scriptTracker) candidates(sqlText string) (res []struct {
+type cand = struct {
 	f   *scriptFile
 	idx int
-}) {
+}
+
+var candCache = map[string][]cand{}
+
+func (tr *scriptTracker) candidates(sqlText string) (res []cand) {
+	if c, ok := candCache[sqlText]; ok {
+		return c
+	}
+	defer func() { candCache[sqlText] = res }()
 	for _, f := range tr.files {
 		for i, re := range f.Scripts {
 			if re.MatchString(sqlText) {
-				res = append(res, struct {
-					f   *scriptFile
-					idx int
-				}{f, i})
+				res = append(res, cand{f, i})
 			}
 		}
 	}
